@@ -249,8 +249,18 @@ def run(report):
                                                          ["--evaluate"], ["--variables"], ["--groups"], ["--show", "r"], ["--dry-run", "r"]]
         for argv in cmds:
             cases.append((name, files, argv, reps))
+    # names that are equally close to several things just knows: whatever it suggests ("Did you mean ...?") or reports
+    # must be the same on every run; twice the usual number of repetitions (a choice between two survives 16 runs with
+    # probability 2^-15)
+    near = {"justfile": 'set shell := ["%s", "-c"]\nmod alpha\nmod alphb\nva := "1"\nvb := "2"\nvc := "3"\nRAD := "r"\n\nbuild:\n  [T]\n\nbuilt:\n  [T]\n\nguild:\n  [T]\n\nalias bd := build\nalias bt := built\n' % C.VSH,
+            "alpha.just": "ra:\n  [T]\n\nrb:\n  [T]\n", "alphb.just": "ra:\n  [T]\n"}
+    NEAR = [["buils"], ["builx"], ["quild"], ["bx"], ["--show", "buils"], ["--show", "bx"], ["--evaluate", "vx"], ["--evaluate", "GREY"], ["--evaluate", "BG_GREY"],
+            ["--evaluate", "HEXX"], ["--evaluate", "RED_"], ["--evaluate", "BOLE"], ["--evaluate", "RAE"], ["vx=1", "build"], ["--set", "vx", "1", "build"],
+            ["alpha::rx"], ["alphx::ra"], ["--list", "alphx"], ["--show", "alpha::rx"], ["--dry-run", "buils"], ["--evaluate", "CLEAN"], ["--evaluate", "NORMAl"]]
+    for argv in NEAR:
+        cases.append(("near-miss", near, argv, 2 * reps))
     results = C.pmap(run_case, cases)
-    stats = {"programs": len(progs), "commands": len(COMMANDS), "runs": len(cases) * reps, "repetitions": reps,
+    stats = {"programs": len(progs), "commands": len(COMMANDS), "runs": sum(c[3] for c in cases), "repetitions": reps,
              "scan_files_with_hash_collections": len(found), "scan_differences": len(scan_diff)}
     distinct = set()
     samples = []
@@ -324,7 +334,7 @@ def run(report):
     report.coverage.update({
         "evaluations": len(cases) * reps + ntab,
         "distinct_nontrivial": len(distinct),
-        "rule": "justfiles with >=3 members in every collection (recipes, aliases, variables, settings, 4 unexports with per-variant names, recipe and module groups, modules, attributes, parameters) + justfiles with two unstable features / compile errors x %d non-executing command lines (incl. usage and unknown-recipe errors) x %d fresh processes each (hash seeds differ per process); plus random justfiles whose recipes, variables, unexports, aliases and modules (names chosen to separate byte order from other orders) are written in random order: every table of the dump, --summary and --variables against name order and against Just.Determinism.build; plus a scan of every HashMap/HashSet in non-test source against a committed classification; distinct = distinct (program, command)" % (len(COMMANDS), reps),
+        "rule": "justfiles with >=3 members in every collection (recipes, aliases, variables, settings, 4 unexports with per-variant names, recipe and module groups, modules, attributes, parameters) + justfiles with two unstable features / compile errors x %d non-executing command lines (incl. usage and unknown-recipe errors) x %d fresh processes each (hash seeds differ per process); plus random justfiles whose recipes, variables, unexports, aliases and modules (names chosen to separate byte order from other orders) are written in random order: every table of the dump, --summary and --variables against name order and against Just.Determinism.build; plus a scan of every HashMap/HashSet in non-test source against a committed classification; plus 22 command lines that name something equally close to several recipes, aliases, variables, constants or modules (suggestions), 16 runs each; distinct = distinct (program, command)" % (len(COMMANDS), reps),
         "samples": samples,
         "traces_validated_against_impl": len(cases),
         "stats": stats,
